@@ -3,7 +3,7 @@
    Print Assumptions.  Model: Model/GlyfOutline.v (after src/tables/glyf.rs, src/tables/glyf/outline.rs,
    constants from Gen/GlyfConsts.v); specification: Model/GlyfSpec.v. *)
 From AV Require Import Base.Prelude Gen.GlyfConsts Model.GlyfSpec Model.GlyfOutline
-     Proofs.GlyfContourProofs Proofs.GlyfDecodeProofs Proofs.GlyfCompositeProofs.
+     Proofs.GlyfContourProofs Proofs.GlyfDecodeProofs Proofs.GlyfCompositeProofs Proofs.GlyfGlyphProofs.
 From Coq Require Import QArith.
 Open Scope Z_scope.
 
@@ -85,6 +85,30 @@ Print Assumptions C16_simple_glyph_all_contours.
 Theorem C16_simple_outline_total : forall sg, exists cmds, visit_simple sg = Ok cmds.
 Proof. exact visit_simple_total. Qed.
 Print Assumptions C16_simple_outline_total.
+
+(* (a) + (b) end to end.  For EVERY list of non-empty contours and EVERY legal way of writing them as
+   a simple glyph description (contour count, any bounding box bytes, endPtsOfContours, any
+   instructions, any legal flag/coordinate encoding; anything may follow), Glyph::read parses it and
+   the outline drawn is, contour by contour, a specified reading of that contour's cyclic expansion. *)
+Theorem C16_simple_glyph_end_to_end : forall cs bbox instr chs gs rest,
+  simple_glyph_legal cs bbox instr chs gs = true ->
+  exists sg paths,
+    read_glyph (simple_glyph_bytes cs bbox instr chs gs ++ rest) = Ok (GSimple sg) /\
+    visit_simple sg = Ok (concat paths) /\
+    Forall2 spec_path_of cs paths.
+Proof. exact simple_glyph_end_to_end. Qed.
+Print Assumptions C16_simple_glyph_end_to_end.
+
+(* ... and through OutlineBuilder::visit (table load, glyph lookup, identity transform): the commands
+   are those paths, in font units (half of the doubled coordinates) *)
+Theorem C16_visit_simple_glyph : forall cs bbox instr chs gs,
+  simple_glyph_legal cs bbox instr chs gs = true ->
+  exists cmds paths,
+    visit [simple_glyph_bytes cs bbox instr chs gs] 0 = Ok cmds /\
+    cmds_eq cmds (map (map_cmd half) (concat paths)) /\
+    Forall2 spec_path_of cs paths.
+Proof. exact visit_simple_glyph. Qed.
+Print Assumptions C16_visit_simple_glyph.
 
 (* ---- (c) composite glyphs --------------------------------------------------------------------- *)
 
@@ -168,6 +192,12 @@ Proof. vm_compute. reflexivity. Qed.
 Example ex_encoding_bytes :
   encode_points ex_pts [chS; chS; chL; chS] [(1%nat, true); (0%nat, false); (0%nat, true)]
   = [59; 1; 80; 43; 0; 5; 5; 1; 254; 212].
+Proof. vm_compute. reflexivity. Qed.
+
+Example ex_simple_glyph_legal :
+  simple_glyph_legal [[(true, (5, 0)); (true, (10, 0))]; [(false, (10, -300)); (true, (9, -300))]]
+                     [0; 0; 0; 0; 0; 0; 0; 0] [7]
+                     [chS; chS; chL; chS] [(1%nat, true); (0%nat, false); (0%nat, true)] = true.
 Proof. vm_compute. reflexivity. Qed.
 
 (* composites: nested offsets accumulate (finding F17), the two-by-two matrix is applied as
